@@ -9,6 +9,7 @@ alias>)`` is typing's alias type.  Nothing from quansino is imported or executed
 from __future__ import annotations
 
 import ast
+import copy
 from dataclasses import dataclass, field
 
 from .loader import AnalysisError, ClassInfo, FuncInfo, Program, dotted, norm
@@ -161,9 +162,20 @@ class Interp:
                 raise _Continue()
             elif isinstance(st, ast.Break):
                 raise _Break()
-            elif isinstance(st, ast.AugAssign) and isinstance(st.target, ast.Name):
-                cur = self.ev(ast.Name(id=st.target.id, ctx=ast.Load()), env, fi)
-                env[st.target.id] = self.binop(st.op, cur, self.ev(st.value, env, fi), fi)
+            elif isinstance(st, ast.AugAssign) and isinstance(st.target, (ast.Name, ast.Attribute)):
+                load = copy.deepcopy(st.target)
+                load.ctx = ast.Load()
+                cur = self.ev(load, env, fi)
+                val = self.ev(st.value, env, fi)
+                if isinstance(cur, list) and isinstance(st.op, ast.Add) and isinstance(val, (list, tuple)):
+                    cur.extend(val)  # Python's `list += …` extends IN PLACE: every alias of the list sees it
+                    new = cur
+                elif isinstance(cur, list) and isinstance(st.op, ast.Mult) and isinstance(val, int) and not isinstance(val, bool):
+                    cur[:] = cur * val
+                    new = cur
+                else:
+                    new = self.binop(st.op, cur, val, fi)
+                self.store(st.target, new, env, fi)
             else:
                 raise InterpUnsupported(f"{fi.qualname}: statement `{norm(st)[:60]}` outside the dispatch fragment")
 
